@@ -294,7 +294,10 @@ impl std::fmt::Display for PackageListEntry {
             "{} {} {} {}",
             self.package, self.package_type, self.section, self.priority
         )?;
-        for (k, v) in &self.extra {
+        // HashMap iteration order differs between instances: print sorted
+        let mut extra = self.extra.iter().collect::<Vec<_>>();
+        extra.sort();
+        for (k, v) in extra {
             write!(f, " {}={}", k, v)?;
         }
         Ok(())
